@@ -11,7 +11,7 @@ class FakeCk:
 a, b = int(sys.argv[1]), int(sys.argv[2])
 n = int(sys.argv[3]) if len(sys.argv) > 3 else 640
 sites = {}
-profiles = ["weird", "mixed", "cpu", "weird", "lut", "elementwise", "weights", "cascade", "weird", "mixed"]
+profiles = ["weird", "mixed", "cpu", "pattern", "lut", "elementwise", "weights", "cascade", "weird", "pattern"]
 for seed in range(a, b):
     outs = pipe_common.run_corpus(FakeCk(seed), n, profiles=profiles, want={"more_opts": True}, corpus_first=False)
     for o in outs:
